@@ -71,6 +71,20 @@ def generate(seed, tier="quick", mode=None, **kw):
             bad = good[:k] + r.choice("$!#") + good[k + 1:]
             a, b = (good, bad) if r.random() < 0.5 else (bad, good)
             secrets[str(n0 + j)] = {"cls": "j9mix", "a": a, "b": b}
+    if mode == "c08" and not odd_salt and r.random() < 0.2:
+        # $9$ strings that share a well-formed prefix with a valid encoding but are not whole encodings themselves
+        # (one character too many / too few): different secrets, today keyed by their raw text
+        n0 = len(secrets)
+        P = G.gen_secret(r, "j9p")
+        sc, fl = r.choice(G.J9_ALPHA), r.choice("nQz7i")
+        good = G.j9_encode(P, sc, fl)
+        longer = G.j9_encode(P + "x", sc, fl)
+        cand = [good, good + next(ch for ch in "Qz7nK" if not longer.startswith(good + ch)), longer[:-1]]
+        used_vals = {v["a"] for v in secrets.values()}
+        for j, val in enumerate(cand[: r.choice([2, 3])]):
+            if val not in used_vals and len(val) > len(good) - 1:
+                used_vals.add(val)
+                secrets[str(n0 + j)] = {"cls": "j9raw", "a": val, "b": val}
     ctx = GC.make_ctx(r, o)
     nfiles = r.randint(1, 6)
     paths, dirs, _ = GC.gen_tree(r, nfiles, hidden=False, dirs=r.random() < 0.5)
